@@ -131,6 +131,18 @@ def fam_params(n):
     return src, "4242,%d" % (n * (n - 1) // 2)
 
 
+def fam_params_spread(n):
+    """n formal parameters, the arguments supplied through a spread / apply (a literal list of n arguments has its own limit)"""
+    ps = ",".join("p%d: number" % i for i in range(n))
+    body = "+".join("p%d" % i for i in range(n)) or "0"
+    last = "p%d" % (n - 1) if n else "0"
+    src = ("let keep = 4242; const xs = Array.from({length: %d}, (_, i) => i); function f(%s) { return (%s) + ':' + %s; } class C { m(%s) { return %s; } } const ar = (%s) => { return %s; };\n"
+           "[keep, f(...xs), f.apply(null, xs), new C().m(...xs), ar(...xs)].join(',')" % (n, ps, body, last, ps, last, ps, last))
+    t = n * (n - 1) // 2
+    l = n - 1 if n else 0
+    return src, "4242,%d:%d,%d:%d,%d,%d" % (t, l, t, l, l, l)
+
+
 def fam_template(n):
     src = "let keep = 4242; const x = 7; const t = `%s`; [keep, t.length].join(',')" % "".join("${x}-" for _ in range(n))
     return src, "4242,%d" % (2 * n)
@@ -233,7 +245,7 @@ def fam_optional_chain(n):
     return src, "4242,9,undefined"
 
 
-REG_FAMILIES = {"array": fam_array, "object": fam_object, "args": fam_args, "params": fam_params, "template": fam_template,
+REG_FAMILIES = {"array": fam_array, "object": fam_object, "args": fam_args, "params": fam_params, "params_spread": fam_params_spread, "template": fam_template,
                 "switch": fam_switch, "seqexpr": fam_seqexpr, "concat": fam_concat, "elseif": fam_elseif, "destructure": fam_destructure,
                 "destructure_rest": fam_destructure_rest, "destructure_holes": fam_destructure_holes, "destructure_params": fam_destructure_params,
                 "object_pattern": fam_object_pattern, "spread_calls": fam_spread_calls, "optional_chain": fam_optional_chain}
